@@ -268,6 +268,17 @@ func (w *World) Step(tr *vutil.Trace, o AbsOp, amount string, gas string) *execd
 			}
 			tx.Hash = tx.GenHash()
 		}
+	case "SelfDestructFunded":
+		// a contract self-destructs (beneficiary: another account) and, later in the SAME block, its
+		// address is credited by a plain transfer (no code runs): the credit sits in the token
+		// contract's storage while the account object is deleted at the end of the block
+		callee := w.addr[o.B]
+		target := w.addr[1+(o.B)%3]
+		abi := append(word(common.FromHex(target)), word([]byte{2})...)
+		tx = execdrv.NewTx(types.TransactionTypeContract, src, callee, contractData(amount, abi, gas), "", w.seq, salt)
+		w.seq++
+		fund, _ := json.Marshal(map[string]types.TransferData{callee: {Balance: "0.75"}})
+		tx2 = execdrv.NewTx(types.TransactionTypeOperatorEvent, eoa[1+(o.A)%3], "", "", string(fund), w.seq, salt+"b")
 	case "StaleGas":
 		// three transactions in one block: fund a fresh account P with a little more than two flat
 		// fees; a contract creation that burns 30M gas; a contract call from P whose gas limit is
@@ -356,7 +367,7 @@ func (w *World) Step(tr *vutil.Trace, o AbsOp, amount string, gas string) *execd
 	// SelfDestruct2: the second transaction of the block destroys the contract on its own when the
 	// first one was refused (e.g. for an ill-formed amount)
 	ok2 := tx2 != nil && res.Ok(tx2.Hash)
-	if ((ok && (o.Op == "SelfDestruct" || o.Op == "SelfDestruct2")) || (ok2 && o.Op == "SelfDestruct2")) && w.isCon[o.B] {
+	if ((ok && (o.Op == "SelfDestruct" || o.Op == "SelfDestruct2" || o.Op == "SelfDestructFunded")) || (ok2 && o.Op == "SelfDestruct2")) && w.isCon[o.B] {
 		w.isCon[o.B] = false
 		w.addr[o.B] = eoa[o.B]
 	}
